@@ -427,8 +427,11 @@ class Ctx:
         for cmd in cmds:
             for dj in self.ok.get(cmd, []):
                 concerned = {a for a in dj if a.path == path or a.path == path[:len(a.path)]}
-                present = any(a.kind in ("present", "bip32") and a.path == path for a in dj) or \
-                    (path and path[-1] == "*") or not path
+                base = path
+                while base and base[-1] == "*":
+                    base = base[:-1]
+                present = any(a.kind in ("present", "bip32") and a.path == path for a in dj) or not path or \
+                    (path[-1] == "*" and (not base or any(a.kind == "present" and a.path == base for a in dj)))
                 if not present:
                     continue
                 common = concerned if common is None else (common & concerned)
@@ -574,6 +577,8 @@ class Prims:
                                    + {"ValueError": "(integer literal over the digit limit)",
                                       "RecursionError": "(deeply nested document)",
                                       "JSONDecodeError": ""}[e]))
+            elif nm == "len" and isinstance(f, ast.Name) and n.args:
+                out += self._needs_type(n, n.args[0], fn, sc, {"list", "str", "dict", "bytes"}, "len()")
             elif nm == "int" and isinstance(f, ast.Name) and n.args:
                 if any(is_client(o) for o in self.origins(n.args[0], fn, sc)):
                     self.record(fn, n, "int()", "raises", "ValueError")
@@ -625,6 +630,12 @@ class Prims:
                                         f"`{norm(n)[:40]}`: an RLP-decoded item may be a list (no .{nm})"))
         elif isinstance(n, ast.Compare) and len(n.ops) == 1 and isinstance(n.ops[0], (ast.In, ast.NotIn)):
             out += self._hash_key(n, n.left, n.comparators[0], fn, sc)
+        elif isinstance(n, ast.Compare) and any(isinstance(o, (ast.Lt, ast.LtE, ast.Gt, ast.GtE)) for o in n.ops):
+            for side in [n.left] + list(n.comparators):
+                out += self._needs_type(n, side, fn, sc, {"int", "float"}, "ordering comparison")
+        elif isinstance(n, (ast.For, ast.comprehension)):
+            out += self._needs_type(n.iter if isinstance(n, ast.For) else n.iter, n.iter, fn, sc,
+                                    {"list", "str", "dict"}, "iteration")
         elif isinstance(n, ast.Subscript) and isinstance(n.ctx, ast.Load):
             out += self._subscript(n, fn, sc)
         return out
@@ -633,6 +644,26 @@ class Prims:
         imp = fn.module.imports
         return any(v[0] == "module" and v[1].startswith("bitcoin") for v in imp.values()) or \
             any(v[0] == "from" and v[1].startswith("bitcoin") for v in imp.values())
+
+    def _needs_type(self, node, operand, fn, sc, types, what):
+        """A request value used where only `types` work (len(), iteration, ordering)."""
+        out = []
+        for o in self.origins(operand, fn, sc):
+            if o[0] != "R":
+                continue
+            atoms = self.path_atoms(node, fn, sc, o[1])
+            tys = _type_atoms(atoms, o[1])
+            if o[1] and o[1][-1] == "*":
+                tys |= {a.args[0] for a in atoms if a.kind == "type" and a.path == o[1]}
+            if tys & types:
+                self.record(fn, node, what, "disarmed", f"request.{'.'.join(o[1])}: type {sorted(tys)}")
+                continue
+            if self.just(fn, node if not isinstance(node, ast.comprehension) else operand, "TypeError"):
+                continue
+            self.record(fn, node, what, "raises", "TypeError")
+            out.append(("TypeError", f"{what} on request.{'.'.join(o[1]) or '<request>'} whose type is not known to be one of "
+                                     f"{sorted(types)} here (`{norm(operand)[:40]}`)"))
+        return out
 
     def _rlp_item_typed(self, node, item, fn, sc):
         g = self.A.cfg(fn, sc)
